@@ -116,6 +116,10 @@ namespace pika::detail {
         {
             old_state = expected;
 
+            // the value the failed exchange has seen may already carry the
+            // stop request of another thread (with the lock released again)
+            if (stop_requested(old_state)) return false;
+
             for (std::size_t k = 0; is_locked(old_state); ++k)
             {
                 pika::execution::this_thread::detail::yield_k(
